@@ -17,9 +17,9 @@ const BATCH: u64 = 25;
 const SHIFTS: [u64; 4] = [1, 2, 7, 50];
 
 pub fn sections(ctx: &Ctx) -> Vec<(&'static str, u64)> {
-    let (locs, fail, typ) = match ctx.tier {
-        Tier::Quick => (80, 160, 80),
-        Tier::Thorough => (4_000, 8_000, 4_000),
+    let (locs, fail, typ, trivia) = match ctx.tier {
+        Tier::Quick => (80, 160, 80, 40),
+        Tier::Thorough => (4_000, 8_000, 4_000, 2_000),
     };
     let w1 = w1_scenarios(&ctx.corpus, false).len() as u64;
     vec![
@@ -28,6 +28,8 @@ pub fn sections(ctx: &Ctx) -> Vec<(&'static str, u64)> {
         ("type", typ * ctx.scale),
         ("corpus-load", w1),
         ("corpus-crlf", w1),
+        ("trivia", trivia * ctx.scale),
+        ("corpus-trivia", w1),
     ]
 }
 
@@ -225,6 +227,41 @@ pub fn cases(ctx: &Ctx, section: &str, unit: u64) -> Vec<Case> {
                         .with("k", Json::u(k))
                         .with("not_text", Json::Bool(r.chance(1, 2)))
                         .with("variant_seed", Json::u(r.next_u64() >> 12)),
+                });
+            }
+        }
+        "trivia" => {
+            for b in 0..BATCH {
+                let i = unit * BATCH + b;
+                let mut rng = ctx.rng().sub_n(section, i);
+                let mode = if rng.chance(1, 3) { Mode::Plain } else { Mode::Hostile };
+                let form = if rng.chance(1, 3) { Form::Compile } else { Form::Pre };
+                let g = w3::generate(&mut rng.sub("graph"), mode, form);
+                let api = if form == Form::Compile { Api::Compile } else { Api::Preprocess };
+                out.push(graph_case(
+                    "diag-trivia",
+                    format!("W3:trivia#{i}"),
+                    &g,
+                    vec![],
+                    api,
+                    &mut rng,
+                ));
+            }
+        }
+        "corpus-trivia" => {
+            let scs = w1_scenarios(&ctx.corpus, false);
+            let sc = &scs[unit as usize];
+            let e = &ctx.corpus.entries[sc.entry];
+            let mut rng = ctx.rng().sub_n(section, unit);
+            let n = if ctx.tier == Tier::Quick { 1 } else { 6 };
+            for k in 0..n {
+                out.push(Case {
+                    check: "C14".into(),
+                    kind: "diag-trivia".into(),
+                    label: format!("{}+trivia#{k}", sc.label),
+                    fss: vec![ctx.corpus.trees[e.tree].clone()],
+                    execs: vec![ExecSpec::single(key(&mut rng), STACK_MAIN, sc.task.clone())],
+                    params: Json::obj().with("variant_seed", Json::u(rng.next_u64() >> 12)),
                 });
             }
         }
@@ -639,6 +676,52 @@ pub fn judge(case: &Case, rep: &mut Report) {
                 .collect();
             // insert at the very top of the including file: above every directive of it
             metamorphic(case, &fex, &d, &r.text, &parent, 0, &earlier, rep);
+        }
+        "diag-trivia" => {
+            // whitespace, comments and splices inserted at token boundaries of every file must
+            // not change the result
+            let a = run_single(case, ex, rep);
+            let mut tx = ex.clone();
+            tx.threads[0].tasks[0].faults.push(
+                Fault::new(FaultKind::Trivia, Sel::All).ab(case.params.gu("variant_seed") | 1, 0),
+            );
+            let b = run_single(case, &tx, rep);
+            rep.count("trivia_variants", 1);
+            if b.events.iter().any(|e| e.fired.contains(&"trivia")) {
+                rep.nontrivial.insert(digest);
+            }
+            if a.kind == OutcomeKind::Panic {
+                // totality is C08's subject; nothing to compare here
+                rep.count("trivia_not_judged_base_panics", 1);
+                return;
+            }
+            if b.kind == OutcomeKind::Panic {
+                rep.findings.push(finding("panic", &b.panic_site, format!("{}: {}", case.label, b.text)));
+                return;
+            }
+            let message = |t: &str| -> String {
+                t.lines()
+                    .nth(1)
+                    .and_then(|l| l.split_once(": error: ").map(|x| x.1.to_string()))
+                    .unwrap_or_default()
+            };
+            let same = if a.kind == OutcomeKind::Ok {
+                b.kind == OutcomeKind::Ok && a.text == b.text
+            } else {
+                b.kind == a.kind && message(&a.text) == message(&b.text)
+            };
+            if !same {
+                rep.findings.push(finding(
+                    "trivia",
+                    "trivia-changes-result",
+                    format!(
+                        "{}: inserting whitespace / comments / splices at token boundaries changes the result at {} ({:?})",
+                        case.label,
+                        crate::case::first_difference(&a.text, &b.text),
+                        b.text.lines().skip(1).take(3).collect::<Vec<_>>().join(" | ")
+                    ),
+                ));
+            }
         }
         "diag-crlf" => {
             let a = run_single(case, ex, rep);
